@@ -38,7 +38,8 @@ TRestart ==
     /\ Consume("restart")
     /\ LET p == Persisted(agg)
            cmp == BatchIndepLaw(p, ToAgg(Ev.agg), TRUE)
-       IN  agg' = p /\ drift' = IF cmp # "ok" THEN "restart: " \o cmp ELSE "ok"
+       IN  agg' = p /\ drift' = IF "err" \in DOMAIN Ev THEN "restart: unreadable state file"
+                                  ELSE IF cmp # "ok" THEN "restart: " \o cmp ELSE "ok"
     /\ UNCHANGED <<fam, pos, tree>>
 
 TFinal == Consume("final") /\ drift' = "ok" /\ UNCHANGED <<fam, pos, tree, agg>>
